@@ -27,7 +27,7 @@ type asmFunc struct {
 	label map[string]int // label -> index into ins of the first instruction after it
 }
 
-var memRe = regexp.MustCompile(`^(-?\d+)?\(([A-Z0-9]+)\)$`)
+var memRe = regexp.MustCompile(`^(-?\d+)?\(([A-Z0-9]+)\)(?:\(([A-Z0-9]+)\*(\d)\))?$`)
 
 func parseAsm(w *load.World, path string) ([]*asmFunc, error) {
 	data, err := w.ReadFile(path)
@@ -150,7 +150,6 @@ func checkKernel(w *load.World, c *core.Collector, f *asmFunc, props []string) {
 	if !usesYLen {
 		c.Notef("ASM: %s consults only len(x); equal operand lengths are the callers' obligation (VALID)", f.name)
 	}
-	checkRegisterFlow(w, c, f, cnt, props)
 	// Symbolic check of the traversal. Invariant at every block entry: both pointers have advanced
 	// by 4*c bytes and the count register holds n-c, for the same c. Per block: what is read through
 	// each pointer, relative to the entry, tiles [0,k) floats exactly once where k is what the block
@@ -196,6 +195,145 @@ func checkKernel(w *load.World, c *core.Collector, f *asmFunc, props []string) {
 				skip[i], skip[shr], skip[and] = true, true, true
 			}
 		}
+	}
+	// Other ways to walk the vectors than counting the length down. What all of them have is a cursor
+	// (the x pointer itself, or an index register used as (px)(I*4)) and limits it is compared with:
+	// the length, or the length rounded down to a whole number of blocks (ANDQ $-2^k), kept as a number
+	// (index form) or as an end address (LEAQ (px)(R*4), L). For each limit L the quantity that
+	// plays the role of a counter is V_L = L - cursor: it drops by what the cursor advances, a
+	// comparison of the cursor with L is a comparison of V_L with zero, the rounded limit is a multiple
+	// of 2^k, and the two are tied by 0 <= V_length - V_rounded < 2^k.
+	type limitInfo struct {
+		primary bool
+		mod     int64
+	}
+	limits := map[string]limitInfo{}
+	idxReg := ""
+	for _, in := range f.ins {
+		if in.op == "LEAQ" {
+			continue // computes an address, reads nothing
+		}
+		for _, a := range in.args {
+			if m := memRe.FindStringSubmatch(a); m != nil && m[3] != "" && (m[2] == px || m[2] == py) {
+				if m[4] != "4" || (idxReg != "" && idxReg != m[3]) {
+					c.Add("ASM", f.name+":registers", core.Undecided, rel, "indexed operands with more than one index register or a scale other than 4", props...)
+					return
+				}
+				idxReg = m[3]
+			}
+		}
+	}
+	firstBranch := len(f.ins)
+	for i, in := range f.ins {
+		if in.op == "JMP" || in.op == "RET" || (len(in.op) >= 2 && in.op[0] == 'J') {
+			firstBranch = i
+			break
+		}
+	}
+	for _, idx := range f.label {
+		if idx < firstBranch {
+			firstBranch = idx
+		}
+	}
+	{
+		rounded := map[string]int64{} // register holding the length rounded down to a multiple
+		idxZeroed := false
+		for i := 0; i < firstBranch; i++ {
+			in := f.ins[i]
+			if len(in.args) != 2 {
+				if len(in.args) == 3 || len(in.args) == 0 {
+					continue
+				}
+			}
+			if len(in.args) < 2 {
+				continue
+			}
+			src, dst := in.args[0], in.args[1]
+			switch in.op {
+			case "MOVQ":
+				if src == cnt && !strings.Contains(dst, "(") && !skip[i] {
+					// candidate for the rounded copy: needs the ANDQ below
+					for j := i + 1; j < firstBranch && j < i+4; j++ {
+						jn := f.ins[j]
+						if jn.op == "ANDQ" && len(jn.args) == 2 && jn.args[1] == dst {
+							if v, ok := imm(jn.args[0]); ok && v < 0 && (-v)&(-v-1) == 0 {
+								rounded[dst] = -v
+								skip[i], skip[j] = true, true
+							}
+						}
+					}
+				}
+				if v, ok := imm(src); ok && v == 0 && dst == idxReg {
+					idxZeroed = true
+					skip[i] = true
+				}
+			case "XORQ", "XORL":
+				if src == dst && dst == idxReg {
+					idxZeroed = true
+					skip[i] = true
+				}
+			case "LEAQ":
+				m := memRe.FindStringSubmatch(src)
+				if m == nil || m[2] != px || m[1] != "" || m[4] != "4" {
+					continue
+				}
+				switch {
+				case m[3] == cnt:
+					limits[dst] = limitInfo{primary: true, mod: 1}
+					skip[i] = true
+				case rounded[m[3]] > 0:
+					limits[dst] = limitInfo{mod: rounded[m[3]]}
+					skip[i] = true
+				}
+			}
+		}
+		if idxReg != "" {
+			if !idxZeroed {
+				c.Add("ASM", f.name+":entry", core.Violation, at(0), "the index register "+idxReg+" is used before it is set to zero", props...)
+			}
+			limits[cnt] = limitInfo{primary: true, mod: 1}
+			for r, m := range rounded {
+				limits[r] = limitInfo{mod: m}
+			}
+		}
+	}
+	virtual := len(limits) > 0
+	cursor := px
+	if idxReg != "" {
+		cursor = idxReg
+	}
+	mods := map[string]int64{}
+	var primaryLimit string
+	if virtual {
+		hasPrimary := false
+		for r, li := range limits {
+			if li.primary {
+				hasPrimary = true
+				primaryLimit = r
+			}
+			_ = r
+		}
+		if !hasPrimary {
+			c.Add("ASM", f.name+":registers", core.Undecided, rel, "the cursor is compared with limits, but none of them is the full length", props...)
+			return
+		}
+		wts = map[string]int64{}
+		hiOf = map[string]int64{}
+		for r, li := range limits {
+			if li.primary {
+				wts[r] = 1
+			} else {
+				wts[r] = 0
+			}
+			mods[r] = li.mod
+		}
+	}
+	if virtual {
+		// the count register is not counted down in these forms: that every element is consumed is what
+		// the symbolic traversal below establishes (the limit counters are zero at RET)
+		checkRegisterFlow(w, c, f, "", props)
+	} else {
+		checkRegisterFlow(w, c, f, cnt, props)
 	}
 	isCounter := func(r string) bool { _, ok := wts[r]; return ok }
 	isJcc := func(op string) bool {
@@ -247,7 +385,43 @@ func checkKernel(w *load.World, c *core.Collector, f *asmFunc, props []string) {
 		blocks = append(blocks, ablock{st, en, lastLabel})
 	}
 	const inf = int64(1) << 40
-	type ival struct{ lo, hi int64 }
+	_ = primaryLimit
+	type ival struct{ lo, hi, mod int64 } // lo <= v <= hi and v is a multiple of mod (mod <= 1: no information)
+	gcd := func(a, b int64) int64 {
+		if a < 0 {
+			a = -a
+		}
+		if b < 0 {
+			b = -b
+		}
+		for b != 0 {
+			a, b = b, a%b
+		}
+		if a == 0 {
+			return 1
+		}
+		return a
+	}
+	floorTo := func(v, m int64) int64 {
+		r := v % m
+		if r < 0 {
+			r += m
+		}
+		return v - r
+	}
+	tighten := func(v ival) ival {
+		if v.mod > 1 {
+			if v.lo > -inf {
+				if f := floorTo(v.lo, v.mod); f != v.lo {
+					v.lo = f + v.mod
+				}
+			}
+			if v.hi < inf {
+				v.hi = floorTo(v.hi, v.mod)
+			}
+		}
+		return v
+	}
 	hull := func(a, b ival) ival {
 		if b.lo < a.lo {
 			a.lo = b.lo
@@ -255,6 +429,14 @@ func checkKernel(w *load.World, c *core.Collector, f *asmFunc, props []string) {
 		if b.hi > a.hi {
 			a.hi = b.hi
 		}
+		am, bm := a.mod, b.mod
+		if am < 1 {
+			am = 1
+		}
+		if bm < 1 {
+			bm = 1
+		}
+		a.mod = gcd(am, bm)
 		return a
 	}
 	type bsum struct {
@@ -279,6 +461,7 @@ func checkKernel(w *load.World, c *core.Collector, f *asmFunc, props []string) {
 		flagsOK := false
 		flagReg := ""
 		var cmpK int64
+		cmpCursorFirst, cmpVirtual := false, false
 		for i := b.start; i <= b.end; i++ {
 			in := f.ins[i]
 			if skip[i] {
@@ -300,6 +483,10 @@ func checkKernel(w *load.World, c *core.Collector, f *asmFunc, props []string) {
 					continue
 				}
 				if width <= 0 {
+					continue
+				}
+				if (m[2] == px || m[2] == py) && (m[3] != "") != (idxReg != "") {
+					sm.bad = fmt.Sprintf("%s %s: mixes indexed and plain addressing of the operands", in.op, a)
 					continue
 				}
 				switch m[2] {
@@ -326,41 +513,60 @@ func checkKernel(w *load.World, c *core.Collector, f *asmFunc, props []string) {
 				if in.op == "SUBQ" {
 					sign = -1
 				}
-				if (dst == px || dst == py || isCounter(dst)) && !isImm {
+				if (dst == px || dst == py || isCounter(dst) || (idxReg != "" && dst == idxReg)) && !isImm {
 					sm.bad = fmt.Sprintf("%s %s: not a constant step", in.op, strings.Join(in.args, ", "))
 				}
 				switch {
+				case idxReg != "" && dst == idxReg:
+					// the index is shared by both operands: each cursor moves by 4 bytes per unit
+					sm.dx += 4 * sign * v
+					sm.dy += 4 * sign * v
 				case dst == px:
 					sm.dx += sign * v
 				case dst == py:
 					sm.dy += sign * v
+				case virtual && isCounter(dst):
+					sm.bad = fmt.Sprintf("%s changes the limit %s", in.op, dst)
 				case isCounter(dst):
 					sm.dcs[dst] -= sign * v
 				}
-				flagsOK, flagReg, cmpK = isCounter(dst), dst, 0
+				flagsOK, flagReg, cmpK = isCounter(dst) && !virtual, dst, 0
 			case "INCQ", "DECQ":
 				sign := int64(1)
 				if in.op == "DECQ" {
 					sign = -1
 				}
 				switch {
+				case idxReg != "" && dst == idxReg:
+					sm.dx += 4 * sign
+					sm.dy += 4 * sign
 				case dst == px || dst == py:
 					sm.bad = in.op + " on an operand pointer"
+				case virtual && isCounter(dst):
+					sm.bad = fmt.Sprintf("%s changes the limit %s", in.op, dst)
 				case isCounter(dst):
 					sm.dcs[dst] -= sign
 				}
-				flagsOK, flagReg, cmpK = isCounter(dst), dst, 0
+				flagsOK, flagReg, cmpK = isCounter(dst) && !virtual, dst, 0
 			case "CMPQ":
 				flagsOK = false
-				if isCounter(in.args[0]) {
+				cmpCursorFirst, cmpVirtual = false, false
+				if virtual {
+					switch {
+					case in.args[0] == cursor && isCounter(in.args[1]):
+						flagsOK, flagReg, cmpK, cmpVirtual, cmpCursorFirst = true, in.args[1], 0, true, true
+					case in.args[1] == cursor && isCounter(in.args[0]):
+						flagsOK, flagReg, cmpK, cmpVirtual = true, in.args[0], 0, true
+					}
+				} else if isCounter(in.args[0]) {
 					if v, ok := imm(in.args[1]); ok {
 						flagsOK, flagReg, cmpK = true, in.args[0], v
 					}
 				}
 			case "TESTQ":
-				flagsOK, flagReg, cmpK = len(in.args) == 2 && isCounter(in.args[0]) && in.args[1] == in.args[0], in.args[0], 0
+				flagsOK, flagReg, cmpK = !virtual && len(in.args) == 2 && isCounter(in.args[0]) && in.args[1] == in.args[0], in.args[0], 0
 			case "MOVQ", "LEAQ", "XORQ", "ANDQ", "ORQ", "SHLQ", "SHRQ", "NEGQ", "IMULQ":
-				if dst == px || dst == py || isCounter(dst) {
+				if dst == px || dst == py || isCounter(dst) || (idxReg != "" && dst == idxReg) {
 					// the prologue loads them; later writes are outside the vocabulary
 					if !(in.op == "MOVQ" && strings.Contains(in.args[0], "(FP)")) {
 						sm.bad = fmt.Sprintf("%s changes %s in a way the check does not model", in.op, dst)
@@ -380,22 +586,69 @@ func checkKernel(w *load.World, c *core.Collector, f *asmFunc, props []string) {
 				if isJcc(in.op) {
 					sm.jop = in.op
 					sm.hasCmp, sm.cmpK, sm.cmpReg = flagsOK, cmpK, flagReg
+					if flagsOK && cmpVirtual {
+						// a comparison of the cursor with the limit L, read as a comparison of V_L = L - cursor with a constant
+						type tr struct {
+							op string
+							k  int64
+						}
+						var t tr
+						ge := map[string]bool{"JAE": true, "JHS": true, "JCC": true, "JGE": true}
+						lt := map[string]bool{"JB": true, "JLO": true, "JCS": true, "JL": true, "JLT": true}
+						gt := map[string]bool{"JA": true, "JHI": true, "JG": true, "JGT": true}
+						le := map[string]bool{"JBE": true, "JLS": true, "JLE": true}
+						switch {
+						case in.op == "JE" || in.op == "JEQ" || in.op == "JZ":
+							t = tr{"JE", 0}
+						case in.op == "JNE" || in.op == "JNZ":
+							t = tr{"JNE", 0}
+						case cmpCursorFirst && ge[in.op]: // cursor >= L: V <= 0
+							t = tr{"JL", 1}
+						case cmpCursorFirst && lt[in.op]: // cursor < L: V >= 1
+							t = tr{"JGE", 1}
+						case cmpCursorFirst && gt[in.op]: // cursor > L: V < 0
+							t = tr{"JL", 0}
+						case cmpCursorFirst && le[in.op]: // cursor <= L: V >= 0
+							t = tr{"JGE", 0}
+						case ge[in.op]: // L >= cursor: V >= 0
+							t = tr{"JGE", 0}
+						case lt[in.op]: // V < 0
+							t = tr{"JL", 0}
+						case gt[in.op]: // V > 0
+							t = tr{"JGE", 1}
+						case le[in.op]: // V <= 0
+							t = tr{"JL", 1}
+						}
+						if t.op == "" {
+							sm.hasCmp = false
+						} else {
+							sm.jop, sm.cmpK = t.op, t.k
+						}
+					}
 					if t, ok := f.label[in.args[0]]; ok {
 						sm.target = blockAt[t]
 					}
 				}
 			}
 		}
+		if virtual {
+			if sm.dx%4 != 0 {
+				sm.bad = fmt.Sprintf("the cursor advances by %d bytes, not a whole number of elements", sm.dx)
+			}
+			for r := range wts {
+				sm.dcs[r] = sm.dx / 4
+			}
+		}
 		sums[bi] = sm
 	}
 	// branch semantics on "count REL k", as intervals for the taken and the fall-through edge
-	refine := func(cur ival, op string, k int64) (taken, fall ival, ok bool) {
+	refine := func(cur ival, op string, k int64, nonNeg bool) (taken, fall ival, ok bool) {
 		taken, fall = cur, cur
 		clamp := func(v ival) ival {
-			if v.lo < 0 {
+			if nonNeg && v.lo < 0 {
 				v.lo = 0
 			}
-			return v
+			return tighten(v)
 		}
 		lt := func(v ival, k int64) ival { // count < k
 			if v.hi > k-1 {
@@ -409,7 +662,7 @@ func checkKernel(w *load.World, c *core.Collector, f *asmFunc, props []string) {
 			}
 			return v
 		}
-		eq := func(v ival, k int64) ival { return ival{k, k} }
+		eq := func(v ival, k int64) ival { return ival{k, k, v.mod} }
 		ne := func(v ival, k int64) ival {
 			if v.lo == k {
 				v.lo = k + 1
@@ -451,7 +704,44 @@ func checkKernel(w *load.World, c *core.Collector, f *asmFunc, props []string) {
 		if h, ok := hiOf[r]; ok {
 			hi = h
 		}
-		entry[0][r] = ival{0, hi}
+		entry[0][r] = ival{0, hi, mods[r]}
+	}
+	// the limits of the cursor forms are tied to the full length: 0 <= V_length - V_rounded < 2^k
+	tie := func(v ivals) (ivals, bool) {
+		if !virtual {
+			return v, true
+		}
+		p := v[primaryLimit]
+		for _, r := range regs {
+			if r == primaryLimit {
+				continue
+			}
+			a := v[r]
+			m := mods[r]
+			if m < 1 {
+				m = 1
+			}
+			// P in [A.lo, A.hi + m-1]; A in [P.lo-(m-1), P.hi]
+			if a.lo > p.lo {
+				p.lo = a.lo
+			}
+			if a.hi < inf && a.hi+m-1 < p.hi {
+				p.hi = a.hi + m - 1
+			}
+			if p.lo-(m-1) > a.lo {
+				a.lo = p.lo - (m - 1)
+			}
+			if p.hi < inf && p.hi < a.hi {
+				a.hi = p.hi
+			}
+			a = tighten(a)
+			if a.lo > a.hi || p.lo > p.hi {
+				return v, false
+			}
+			v[r] = a
+		}
+		v[primaryLimit] = p
+		return v, true
 	}
 	var probsAll []string
 	for iter := 0; iter < 64; iter++ {
@@ -464,11 +754,18 @@ func checkKernel(w *load.World, c *core.Collector, f *asmFunc, props []string) {
 			out := ivals{}
 			for _, r := range regs {
 				cur := entry[bi][r]
-				o := ival{cur.lo - sm.dcs[r], cur.hi - sm.dcs[r]}
+				cm := cur.mod
+				if cm < 1 {
+					cm = 1
+				}
+				o := ival{cur.lo - sm.dcs[r], cur.hi - sm.dcs[r], gcd(cm, sm.dcs[r])}
+				if sm.dcs[r] == 0 {
+					o.mod = cm
+				}
 				if cur.hi >= inf {
 					o.hi = inf
 				}
-				if o.lo < 0 {
+				if o.lo < 0 && wts[r] > 0 {
 					o.lo = 0 // a block that takes more than it may is reported below
 				}
 				out[r] = o
@@ -480,6 +777,16 @@ func checkKernel(w *load.World, c *core.Collector, f *asmFunc, props []string) {
 				for _, r := range regs {
 					if v[r].lo > v[r].hi {
 						return // infeasible edge
+					}
+				}
+				{
+					cp := ivals{}
+					for r, x := range v {
+						cp[r] = x
+					}
+					var feasible bool
+					if v, feasible = tie(cp); !feasible {
+						return
 					}
 				}
 				if !reached[t] {
@@ -512,7 +819,7 @@ func checkKernel(w *load.World, c *core.Collector, f *asmFunc, props []string) {
 				push(sm.target, out)
 			case sm.jop != "":
 				if sm.hasCmp {
-					if tk, fl, ok := refine(out[sm.cmpReg], sm.jop, sm.cmpK); ok {
+					if tk, fl, ok := refine(out[sm.cmpReg], sm.jop, sm.cmpK, wts[sm.cmpReg] > 0); ok {
 						push(sm.target, with(out, sm.cmpReg, tk))
 						push(bi+1, with(out, sm.cmpReg, fl))
 						break
@@ -560,7 +867,7 @@ func checkKernel(w *load.World, c *core.Collector, f *asmFunc, props []string) {
 		for _, r := range regs {
 			dcTotal += wts[r] * sm.dcs[r]
 			avail += wts[r] * entry[bi][r].lo
-			if sm.dcs[r] > entry[bi][r].lo {
+			if wts[r] > 0 && sm.dcs[r] > entry[bi][r].lo {
 				overdraw = fmt.Sprintf("the block takes %d off %s but the branches leading here only establish that it is at least %d", sm.dcs[r], r, entry[bi][r].lo)
 			}
 		}
@@ -575,6 +882,9 @@ func checkKernel(w *load.World, c *core.Collector, f *asmFunc, props []string) {
 		}
 		if sm.ret {
 			for _, r := range regs {
+				if wts[r] == 0 {
+					continue // a rounded limit: the full length decides
+				}
 				if e := entry[bi][r]; !(e.lo == 0 && e.hi == 0) {
 					byName[b.name] = append(byName[b.name], fmt.Sprintf("the function can return with elements left (%s in [%d,%s] at RET)", r, e.lo, map[bool]string{true: "unbounded", false: fmt.Sprint(e.hi)}[e.hi >= inf]))
 				}
